@@ -102,13 +102,50 @@ def strip_example_meta(res: dict) -> dict:
 # ---------------------------------------------------------------------------
 # structural diff
 
+def _key(x: Any) -> str:
+    return json.dumps(x, sort_keys=True, ensure_ascii=True, default=str)
+
+
 def diff(expected: Any, got: Any, path: str = '', out: list | None = None,
          limit: int = 40) -> list:
-    """List of (path, expected, got) differences between two JSON-like values."""
+    """List of (path, expected, got) differences between two JSON-like values.
+
+    *expected* may contain the special nodes
+      {'__multiset__': [...]}   got must be a list with the same items in any order
+      {'__groups__': [[..],..]} got must be the concatenation of a permutation of each group
+      {'__oneof__': [...]}      got must equal one of the alternatives
+      {'__any__': True}         anything
+    """
     if out is None:
         out = []
     if len(out) >= limit:
         return out
+    if isinstance(expected, dict) and len(expected) == 1:
+        (k, v), = expected.items()
+        if k == '__any__':
+            return out
+        if k == '__oneof__':
+            if not any(not diff(alt, got, path, [], 1) for alt in v):
+                out.append((path, expected, got))
+            return out
+        if k == '__multiset__':
+            if not isinstance(got, list) or sorted(map(_key, v)) != sorted(map(_key, got)):
+                out.append((path + '/{multiset}', sorted(v, key=_key),
+                            sorted(got, key=_key) if isinstance(got, list) else got))
+            return out
+        if k == '__groups__':
+            flat = [x for g in v for x in g]
+            ok = isinstance(got, list) and len(got) == len(flat)
+            i = 0
+            if ok:
+                for g in v:
+                    if sorted(map(_key, g)) != sorted(map(_key, got[i:i + len(g)])):
+                        ok = False
+                        break
+                    i += len(g)
+            if not ok:
+                out.append((path + '/{ordered-groups}', v, got))
+            return out
     if isinstance(expected, dict) and isinstance(got, dict):
         for k in sorted(set(expected) | set(got), key=str):
             if k not in got:
@@ -127,8 +164,6 @@ def diff(expected: Any, got: Any, path: str = '', out: list | None = None,
             if len(out) >= limit:
                 break
     else:
-        if expected != got or type(expected) is not type(got) and not (
-                isinstance(expected, (int, float)) and isinstance(got, (int, float))):
-            if expected != got:
-                out.append((path, expected, got))
+        if expected != got or isinstance(expected, bool) != isinstance(got, bool):
+            out.append((path, expected, got))
     return out
